@@ -268,7 +268,7 @@ def canon(out, name):
 def run_bct(bct, name, Wf, t=5.0, copy=True):
     """-> ('ok', canon) | ('exc', msg) | ('timeout', None); the argument is a private copy (copy=False: the caller built a
     fresh array in a specific dtype / memory layout, which a copy would normalise)"""
-    st, out = call(bct_funcs(bct)[name], Wf.copy() if copy else Wf, t=t)
+    st, out = call(bct_funcs(bct)[name], Wf.copy() if copy else Wf, t=t, retry=10)
     if st != 'ok':
         return st, out
     try:
@@ -469,3 +469,31 @@ def structured(rs, n, directed):
         res.append(('dicycle', C))
         return res
     return out
+
+
+# ------------------------------------------------------------------ replay files and machinery failures
+
+def replay_cases(path):
+    """cases named by a replay file: a violation replay carries the failing case; a `no-failing-input-found` replay carries the
+    correspondence cases that no longer check (re-run those; none recorded -> empty list, the Lean gate alone is re-run)"""
+    d = json.load(open(path))
+    if isinstance(d.get('case'), dict) and 'case' in d['case']:
+        return [d['case']['case']]
+    out = []
+    for b in d.get('no_longer_checks', []):
+        det = b.get('detail') if isinstance(b, dict) else None
+        if isinstance(det, dict) and isinstance(det.get('case'), dict):
+            out.append(det['case'])
+    return out
+
+
+def guarded(main):
+    """a traceback is a machinery failure (exit 2), never exit 1 without a VIOLATION line"""
+    import traceback
+    try:
+        main()
+    except SystemExit:
+        raise
+    except BaseException:   # noqa
+        traceback.print_exc()
+        sys.exit(2)
